@@ -14,6 +14,7 @@ import math
 import common
 import gen_common as G
 import gen_checks as GC
+import gen_order
 
 PID = 'C08'
 FAMILY = 'Gen'
@@ -54,7 +55,7 @@ def oracle(prog, perm):
 
 def run(ctx):
     out = common.Outcome()
-    out.proof = common.proof_status(FAMILY, PROPFILE)
+    out.proof = common.proof_status_many([(FAMILY, PROPFILE)] + gen_order.PROOFS)
     pg = G.ProgGen(ctx.rng, shuffle=False)
     n = ctx.scale(30, 300)
     K = ctx.scale(2, 3)
@@ -110,12 +111,53 @@ def run(ctx):
     out.trusted_base = ['Coq 8.16.1 kernel + vm_compute', 'axioms: Reals (sig_forall_dec, sig_not_dec), functional_extensionality_dep',
                         'harness: EquationParser + Python ast -> Coq sys', 'exogenous definitions compared as text']
     out.assumptions = ['topologies and permutations covered per generated pair; all valuations and periods by the soundness theorem']
+    # program-level theorem for ALL programs of the single-currency pipeline model and ALL admissible permutations
+    # (coq/GenOrder: Main_order_invariant under the decidable side condition order_ok): the permutations the harness
+    # performs are checked to be admissible in the theorem's sense, order_ok is evaluated on both programs, and the
+    # whole-program correspondence is run on the permuted program
+    gen_order.extra(ctx, out)
+    out.failures.extend(finding_probes())
     return out
+
+
+def _probe_prog(order, extra):
+    secs = {'HH': ('Household', {'alpha_income': 0.6, 'alpha_fin': 0.4}), 'GOV': ('ConsolidatedGovernment', {}),
+            'TF': ('TaxFlow', {'taxrate': 0.2, 'taxes_paid_to': 'GOV'}), 'BUS': ('FixedMarginBusiness', {'profit_margin': 0.1}),
+            'LAB': ('Market', {}), 'GOOD': ('Market', {})}
+    secs.update(extra)
+    steps = [{'kind': 'country', 'id': 'c1', 'code': 'CA', 'currency': None, 'region': False}]
+    steps += [{'kind': 'sector', 'id': k, 'cls': secs[k][0], 'country': 'c1', 'code': k, 'kw': dict(secs[k][1])} for k in order]
+    steps.append({'kind': 'op', 'op': 'SetExogenous', 'sector': 'GOV', 'name': 'DEM_GOOD', 'value': '[20.0]*40'})
+    return {'maxtime': 5, 'steps': steps, 'shape': 'single'}
+
+
+def finding_probes():
+    """Two shapes the generator does not produce and on which coq/GenOrder's side condition order_ok is false
+    (unique_ok / commute_ok); found while proving Main_order_invariant, recorded as D08b and D08c."""
+    fails = []
+    caps = {'CAP': ('Capitalists', {'alpha_income': 0.7, 'alpha_fin': 0.3}), 'CP2': ('Capitalists', {'alpha_income': 0.5, 'alpha_fin': 0.2})}
+    tfs = {'TF2': ('TaxFlow', {'taxrate': 0.1, 'taxes_paid_to': 'GOV'})}
+    for key, a, b, what in (
+            ('order:two-dividend-receivers', _probe_prog(['GOV', 'HH', 'CAP', 'CP2', 'TF', 'BUS', 'LAB', 'GOOD'], caps),
+             _probe_prog(['GOV', 'HH', 'CP2', 'CAP', 'TF', 'BUS', 'LAB', 'GOOD'], caps),
+             'two Capitalists sectors in one country: the business pays the first sector in declaration order that owns DIV'),
+            ('order:two-taxflows', _probe_prog(['GOV', 'HH', 'TF', 'TF2', 'BUS', 'LAB', 'GOOD'], tfs),
+             _probe_prog(['GOV', 'HH', 'TF2', 'TF', 'BUS', 'LAB', 'GOOD'], tfs),
+             'two TaxFlow sectors in one country: the payer\'s T is defined by the first processed, the recipient\'s T by the last')):
+        try:
+            why = oracle(a, b)
+        except Exception as e:  # noqa
+            why = 'build/solve raises %r' % (e,)
+        if why:
+            fails.append({'key': key, 'what': '%s: %s' % (what, why), 'replay': {'kind': 'pair', 'prog': a, 'perm': b}})
+    return fails
 
 
 def replay(path):
     obj = json.load(open(path))
     r = obj.get('replay') or {}
+    if r.get('kind') == 'order':
+        return gen_order.replay(obj)
     if r.get('kind') != 'pair':
         print('replay names a proof/validation obligation, nothing to execute:', json.dumps(obj)[:600])
         return 1
